@@ -3,10 +3,20 @@
 import hashlib, json, os, shutil, subprocess, sys, time
 
 ROOT = os.path.dirname(os.path.dirname(os.path.abspath(__file__)))
-WORK = os.path.join(ROOT, "work")
+# VERIF_REPO / VERIF_WORK are only used by tools/seedtest.py to try the checks on a scratch copy of the repository
+REPO = os.environ.get("VERIF_REPO", "/repo")
+WORK = os.environ.get("VERIF_WORK", os.path.join(ROOT, "work"))
+EVID = os.path.join(ROOT, "evidence") if "VERIF_WORK" not in os.environ else os.path.join(WORK, "evidence")
 HARNESS = os.path.join(ROOT, "harness")
+if REPO != "/repo":
+    # a private copy of the harness whose path dependencies point at the scratch repository
+    HARNESS = os.path.join(WORK, "harness")
+    if not os.path.exists(os.path.join(HARNESS, "Cargo.toml")):
+        os.makedirs(WORK, exist_ok=True)
+        shutil.copytree(os.path.join(ROOT, "harness"), HARNESS, ignore=shutil.ignore_patterns("target"))
+        ct = open(os.path.join(HARNESS, "Cargo.toml")).read().replace("/repo/", REPO.rstrip("/") + "/")
+        open(os.path.join(HARNESS, "Cargo.toml"), "w").write(ct)
 VH = os.path.join(HARNESS, "target", "release", "vh")
-REPO = "/repo"
 sys.path.insert(0, os.path.join(ROOT, "tools"))
 
 
@@ -199,7 +209,7 @@ def scenario_cfg(sc, emit, check, kf, depth=None):
               "  Ops = " + tla_set(c["ops"]), "  ElemNames = " + tla_set(c["elems"]), "  NamedNames = " + tla_set(c["named"]),
               "  ItemNames = " + tla_set(c["names"]), "  PosSet = " + tla_set(c.get("pos", [])),
               "  FileNames = " + tla_set(c.get("files", ["f1", "f2"])), "  Vers = " + tla_set(c.get("vers", ["V50"])),
-              "  Wild = %s" % ("TRUE" if c.get("wild") else "FALSE"),
+              "  Wild = %s" % ("TRUE" if c.get("wild") else "FALSE"), "  AttrValues <- AttrValuesDef",
               "  Emit = %s" % ("TRUE" if emit else "FALSE"), "  CheckProps = %s" % ("TRUE" if check else "FALSE")]
     return "\n".join(lines) + "\n"
 
@@ -213,6 +223,8 @@ SCENARIOS = {
                  named=["SYSTEM-SIGNAL"], names=["s", "s1", "b", "p"], pos=[], wild=False),
     "files": dict(fix="F3", depth=2, tdepth=3, ops=["CreateFile", "RemoveFile", "AddToFile", "RemoveFromFile", "Remove", "CreateNamed", "CreateSub", "Move", "Copy"],
                   elems=["ELEMENTS"], named=["AR-PACKAGE", "SYSTEM-SIGNAL"], names=["a", "d"], pos=[], wild=False, files=["f1", "f3"], vers=["V50"], ser=True),
+    "copy": dict(fix="F4", depth=2, tdepth=3, ops=["Copy", "Duplicate", "SetAttr", "RemoveAttr", "Rename", "Remove", "SetComment"],
+                 elems=[], named=[], names=["a", "b"], pos=[0], wild=False, ser=True),
 }
 
 
@@ -414,8 +426,8 @@ def check_e1(prop, tier):
                        "known_findings_hit": sorted(known.keys()), "scenarios": res["scenarios"]},
           "assumptions": ["TLC, CommunityModules Json reader", "harness projection (harness/src/core.rs)", "kind <-> ElementName concretisation"],
           "wall_s": round(time.time() - t0, 2), "violations": viol}
-    os.makedirs(os.path.join(ROOT, "evidence"), exist_ok=True)
-    json.dump(ev, open(os.path.join(ROOT, "evidence", prop + ".json"), "w"), indent=1)
+    os.makedirs(EVID, exist_ok=True)
+    json.dump(ev, open(os.path.join(EVID, prop + ".json"), "w"), indent=1)
     if res["tool_errors"]:
         log("TOOL ERRORS: " + "; ".join(res["tool_errors"][:5]))
         return 1 if viol else 2
